@@ -136,6 +136,21 @@ fn classify_err(base: &Path, e: &ignore::Error) -> Seen {
     Seen::Err(k.to_string(), p.map(|p| rel(base, &p)).unwrap_or_default())
 }
 
+/// One reported error may carry several complaints (one per malformed ignore file of the
+/// ancestors): each of them counts.
+fn classify_errs(base: &Path, e: &ignore::Error) -> Vec<Seen> {
+    fn parts<'a>(e: &'a ignore::Error, out: &mut Vec<&'a ignore::Error>) {
+        match e {
+            ignore::Error::Partial(v) if v.len() > 1 => v.iter().for_each(|x| parts(x, out)),
+            ignore::Error::WithDepth { err, .. } if matches!(**err, ignore::Error::Partial(ref v) if v.len() > 1) => parts(err, out),
+            _ => out.push(e),
+        }
+    }
+    let mut v = vec![];
+    parts(e, &mut v);
+    v.into_iter().map(|x| classify_err(base, x)).collect()
+}
+
 fn builder(base: &Path, tree: &TreeSpec, cfg: &WalkCfg) -> WalkBuilder {
     // "-" stands for standard input: a root that is reported as an entry of its own and is
     // never opened or examined by the walker
@@ -235,8 +250,7 @@ pub fn run_parallel(base: &Path, case: &Case) -> RunResult {
                         sh.seen.push(Seen::Ok(r));
                     }
                     Err(err) => {
-                        let s = classify_err(&basep, &err);
-                        sh.seen.push(s);
+                        sh.seen.extend(classify_errs(&basep, &err));
                         if script.skip_on_error {
                             state = WalkState::Skip;
                         }
@@ -269,7 +283,7 @@ pub fn run_serial(base: &Path, tree: &TreeSpec, cfg: &WalkCfg) -> Vec<Seen> {
     for ent in b.build() {
         match ent {
             Ok(e) => out.push(Seen::Ok(rel(base, e.path()))),
-            Err(err) => out.push(classify_err(base, &err)),
+            Err(err) => out.extend(classify_errs(base, &err)),
         }
     }
     out
@@ -279,6 +293,15 @@ fn multiset(v: &[Seen]) -> BTreeMap<Seen, usize> {
     let mut m = BTreeMap::new();
     for s in v {
         *m.entry(s.clone()).or_insert(0) += 1;
+    }
+    // A malformed line in an ignore file is reported when the file is compiled; the matchers of
+    // the roots' ancestors are cached, so with several roots how often one file is compiled (once,
+    // or once per root) depends on which walker runs and in which order. The property is about
+    // entries: that the complaint is made counts, how many times does not.
+    for (k, n) in m.iter_mut() {
+        if matches!(k, Seen::Err(kind, _) if kind == "glob") {
+            *n = 1;
+        }
     }
     m
 }
@@ -364,6 +387,13 @@ fn gen_case_c07(sub: u64, thorough: bool) -> Case {
             linked = true;
         }
         cfg.follow_links = rng.chance(3, 4);
+        if rng.chance(1, 3) {
+            // a size limit: it is about files, also when a directory is reached through a link
+            cfg.max_filesize = Some([0u64, 1, 2, 5, 100][rng.below(5)]);
+        }
+        if rng.chance(1, 4) {
+            cfg.max_depth = Some(1 + rng.below(4));
+        }
     }
     let n_expected = tree.nodes.len() + tree.roots.len();
     let mut visitor = VisitorScript::default();
@@ -689,6 +719,18 @@ fn check_c06(case: &Case, base: &Path, r: &RunResult, serial: &[Seen]) -> Option
     if let Some(d) = diff_multisets(&pm, &sm, "parallel", "serial") {
         let class = classify_c06_diff(case, base, &pm, &sm);
         return Some(Verdict { class, summary: format!("parallel and serial walkers disagree: {d}") });
+    }
+    // several roots: the walk is the walks of the single roots one after the other (whatever
+    // rules are active: this needs no model of them)
+    if case.tree.roots.len() > 1 && case.stat_fault.is_none() && case.opendir_fault.is_none() {
+        let mut union: Vec<Seen> = vec![];
+        for r in &case.tree.roots {
+            let one = TreeSpec { roots: vec![r.clone()], ..case.tree.clone() };
+            union.extend(run_serial(base, &one, &case.cfg));
+        }
+        if let Some(d) = diff_multisets(&sm, &multiset(&union), "all-roots-at-once", "root-by-root") {
+            return Some(Verdict { class: "several-roots-differ-from-single-roots".into(), summary: format!("the walk over {:?} differs from the walks over each root alone: {d}", case.tree.roots) });
+        }
     }
     // independent listing, when no rule-based filtering is active
     let partial_listing = case.opendir_fault.as_ref().map_or(false, |d| d.starts_with("readdir:"));
